@@ -410,7 +410,8 @@ class Frame:
                 return key, lv, ('tuple', (T.add(pos, start) if start != C(0) else pos, elem))
             if f == 'zip':
                 parts = [self.iter_binding(x) for x in it_node.args]
-                key = ('zip', tuple(p[0] for p in parts))
+                keys = {p[0] for p in parts}
+                key = parts[0][0] if len(keys) == 1 else ('zip', tuple(p[0] for p in parts))
                 lv = ('lv', key, depth)
                 elems = []
                 for (k, l, e) in parts:
@@ -431,7 +432,7 @@ class Frame:
         if it[0] == 'nd':
             it = it[1]
         if it[0] == 'records':
-            key = ('rows', it[1])
+            key = ('range', C(0), T.length(it[1]), C(1))      # rows are visited by position
             lv = ('lv', key, depth)
             return key, lv, ('row', it[1], lv)
         if it[0] == 'items':
@@ -442,12 +443,11 @@ class Frame:
             key = ('keysof', it[2])
             lv = ('lv', key, depth)
             return key, lv, ('keyat', it[2], lv)
-        if it[0] in ('tuple', 'list') and len(it[1]) <= 8:
-            key = ('over', it)
-            lv = ('lv', key, depth)
-            return key, lv, ('idx', it, lv)
-        key = ('over', it)
+        # iterating a sequence == iterating its positions: one normal form for `for x in X`, `for i in range(len(X))` and comprehensions
+        key = ('range', C(0), T.length(it), C(1))
         lv = ('lv', key, depth)
+        if it[0] in ('tuple', 'list'):
+            return key, lv, ('idx', it, lv)
         return key, lv, T.index(it, lv)
 
     def position(self, key, lv):
@@ -507,6 +507,12 @@ class Frame:
             if kind == BREAK:
                 brk_cond = T.or_([brk_cond, cond])
         self.env = env_end
+        # x = zeros(n); for i in range(n): x[i] = v   ==   [v for i in range(n)]
+        if key[0] == 'range' and key[1] == C(0) and key[3] == C(1) and not brks and out == FALL:
+            for nm, val in list(self.env.items()):
+                if val[0] == 'arr' and len(val[2]) == 1 and val[2][0][0] == lv and val[2][0][2] == T.and_(self.pc) and \
+                        val[1][0] == 'call' and val[1][1] in ('zeros', 'ones', 'empty') and val[1][2] and val[1][2][0] == key[2]:
+                    self.env[nm] = ('map', key, val[2][0][1])
         for k, n in enumerate(carried):
             upd = self.env.get(n)
             me = ('carried', k, key, depth, init[n])
@@ -633,6 +639,13 @@ class Frame:
             self.update_name(name, new)
             self.ctx.event('store', base_node.attr, (cur, k, v), guard=g, loops=self.loops, where=self.where(node), extra={'target': name})
             return
+        if isinstance(base_node, ast.Name) and base_node.id not in self.env and self.ctx.model.resolve(self.mod, base_node.id) is None \
+                and base_node.id not in self.ctx.model.modassign.get(self.mod, {}):
+            # store into a name that is not bound on this path: python raises NameError
+            self.ctx.raises.append(('NameError', self.guard(), self.where(node)))
+            self.ctx.event('nameerror', base_node.id, guard=self.guard(), where=self.where(node))
+            self.env[base_node.id] = ('opaque', f'NameError: {base_node.id} is not defined')
+            return
         if self.is_place(base_node):
             name = ast.unparse(base_node)
             cur = self.place_get(base_node)
@@ -642,6 +655,13 @@ class Frame:
                     k = ('sl', NONE) + k[2:]
             else:
                 k = self.ex(t.slice)
+            if k[0] in ('list', 'tuple') and k[1] and all(T.isconst(x) and isinstance(x[1], int) for x in k[1]) and cur[0] not in ('dict', 'table'):
+                new = cur
+                for x in k[1]:
+                    new = _arr_store(new, x, v, g)
+                self.place_set(base_node, new)
+                self.ctx.event('store', 'subscript', (cur, k, v), guard=g, loops=self.loops, where=self.where(node), extra={'target': name})
+                return
             if cur[0] == 'dict' and T.isconst(k) and g == TRUE:
                 d = dict(cur[1])
                 d[k[1]] = v
@@ -705,9 +725,18 @@ class Frame:
             v = self.ctx.model.modassign[self.mod][n.id]
             if isinstance(v, ast.Constant):
                 return Cdec(v.value)
-            return ('global', self.mod, n.id)
+            try:
+                ast.literal_eval(v)          # a literal tuple / list / dict of constants: its value is known
+                return self.ex(v)
+            except Exception:
+                return ('global', self.mod, n.id)
         if n.id in ('True', 'False', 'None'):
             return C({'True': True, 'False': False, 'None': None}[n.id])
+        import builtins
+        if not hasattr(builtins, n.id):
+            self.ctx.raises.append(('NameError', self.guard(), self.where(n)))
+            self.ctx.event('nameerror', n.id, guard=self.guard(), where=self.where(n))
+            return ('opaque', f'NameError: {n.id} is not defined')
         return ('builtin', n.id)
 
     def ex_Tuple(self, n):
@@ -1034,7 +1063,7 @@ class Frame:
         return None
 
     def unroll_comprehension(self, n, kind):
-        if kind not in ('list', 'gen'):
+        if kind not in ('list', 'gen', 'dict'):
             return None
         targets = set()
         for g in n.generators:
@@ -1044,7 +1073,7 @@ class Frame:
 
         def rec(gi):
             if gi == len(n.generators):
-                out.append(self.ex(n.elt))
+                out.append(('tuple', (self.ex(n.key), self.ex(n.value))) if kind == 'dict' else self.ex(n.elt))
                 return True
             g = n.generators[gi]
             items = self.literal_items(g.iter)
@@ -1069,6 +1098,14 @@ class Frame:
                 self.env.pop(k, None)
             else:
                 self.env[k] = v
+        if kind == 'dict':
+            if all(T.isconst(kv[1][0]) for kv in out):
+                d = {}
+                for kv in out:
+                    d[kv[1][0][1]] = kv[1][1]
+                return ('dict', tuple(sorted(d.items(), key=lambda x: repr(x[0]))))
+            self.env = snapshot
+            return None
         return ('list', tuple(out))
 
     def ex_ListComp(self, n):
@@ -1081,6 +1118,9 @@ class Frame:
         return self.comprehension(n, 'set')
 
     def ex_DictComp(self, n):
+        r = self.unroll_comprehension(n, 'dict')
+        if r is not None:
+            return r
         return ('dictcomp', self.comprehension(n, 'dict'))
 
     # ------------------------------------------------------------------ calls
